@@ -326,6 +326,17 @@ fn lj_inject(st: &PotentialState<LJShape2>, spec: &Spec) -> PotentialState<LJSha
 
 /// shape=polygon:5 | radial:1:0.9:1:0.95 | circle | trimer:r:angle:d
 pub fn build(spec: &Spec) -> St {
+    // prev=<group>: a state of ANOTHER group with the same parameters was built and queried on this thread just before
+    // (what a site yields may not depend on what was asked of another site before)
+    if let Some(pg) = spec.kv.get("prev") {
+        let mut s2 = spec.clone();
+        s2.kv.insert("group".into(), pg.clone());
+        s2.kv.remove("prev");
+        s2.kv.remove("opt");
+        if let Ok(st) = catch_unwind(AssertUnwindSafe(|| build(&s2))) {
+            let _ = (st.rel(), st.cart(), st.score());
+        }
+    }
     let g = group_of(spec.get("group"));
     let shape = spec.get("shape");
     let parts: Vec<&str> = shape.split(':').collect();
